@@ -188,19 +188,37 @@ func checkLiveness(nw *Network, res *CaseResult, cycles int, idle bool, bound in
 	// follow any more do not; if the rest is not a supermajority the property
 	// says nothing about this history.
 	if len(live) > 0 {
-		vals := live[0].Core.Validators()
-		for _, n := range live {
-			if n.Core.Validators().Len() > vals.Len() {
-				vals = n.Core.Validators()
+		// the current validator set according to the harness: genesis modified by the
+		// accepted receipts of the longest delivered chain (not what a node claims)
+		vals := pubSet(nw.Genesis)
+		var longest *SimNode
+		for _, n := range nw.Nodes {
+			if n.App != nil && fullHistory(n) && (longest == nil || len(n.App.Delivered) > len(longest.App.Delivered)) {
+				longest = n
+			}
+		}
+		if longest != nil {
+			for _, d := range longest.App.Delivered {
+				for _, rc := range d.Resp.InternalTransactionReceipts {
+					if !rc.Accepted {
+						continue
+					}
+					pk := rc.InternalTransaction.Body.Peer.PubKeyString()
+					if rc.InternalTransaction.Body.Type == hg.PEER_ADD {
+						vals[pk] = true
+					} else if rc.InternalTransaction.Body.Type == hg.PEER_REMOVE {
+						delete(vals, pk)
+					}
+				}
 			}
 		}
 		lv := 0
 		for _, n := range live {
-			if _, ok := vals.ByID[n.ID]; ok {
+			if vals[n.PubHex] {
 				lv++
 			}
 		}
-		if 3*lv <= 2*vals.Len() {
+		if 3*lv <= 2*len(vals) {
 			res.count("liveness_premise_not_met_live_validators_not_a_supermajority", 1)
 			res.Digests = nil
 			return
